@@ -1,9 +1,13 @@
 (* C01 — flat-integer interface of the model for the generic OCaml driver, stream "history"
    (wire format: see Codec.v). *)
 From Coq Require Import List ZArith Bool.
-From Verif Require Import Lib.Wire Lib.Vec2 C01.Model C01.Spec C01.Root C01.Codec.
+From Verif Require Import Lib.Wire Lib.VecN C01.Dim2 C01.Model C01.Spec C01.Root C01.Codec.
 Import ListNotations.
 Open Scope Z_scope.
+
+(* the harness speaks the two-dimensional instance (cpu, memory) of the wire format; the model, the
+   specification and the theorems are for an arbitrary dimension count (Lib/VecN) *)
+Local Existing Instance D2.
 
 Definition run_case (inp : list Z) : list Z :=
   let '(sm, dm, ops) := decode inp in
